@@ -242,10 +242,23 @@ def list_dirs(root, maxdepth=7, limit=80):
             continue
         for n in names:
             r = os.path.join(rel, n) if rel else n
-            if os.path.isdir(os.path.join(root, r)) and d + 1 <= maxdepth:
+            if (os.path.isdir(os.path.join(root, r)) and d + 1 <= maxdepth
+                    and (os.path.realpath(os.path.join(root, r)) + os.sep).startswith(root + os.sep)):
                 out.append(r)
                 stack.append((r, d + 1))
     return out[:limit]
+
+
+def real_dirs(root):
+    """physical directories below root (links not followed), relative paths."""
+    out = []
+    for dp, dns, _ in os.walk(root):
+        dns.sort()
+        for n in dns:
+            p = os.path.join(dp, n)
+            if not os.path.islink(p):
+                out.append(os.path.relpath(p, root))
+    return sorted(out)
 
 
 def add_links(root, links):
@@ -253,16 +266,18 @@ def add_links(root, links):
 
     for l in links:
         rng = random.Random(l["seed"])
-        dirs = [d for d in list_dirs(root, maxdepth=5) if d]
+        dirs = real_dirs(root)      # physical paths only, so that a relative target cannot leave the tree
         if not dirs:
             return
         target = rng.choice(dirs)
-        holder = rng.choice([""] + [d for d in dirs if "workspace" not in d.split("/")[-1:]])
+        holder = rng.choice([""] + dirs)
         name = os.path.join(root, holder, "lnk%d" % (l["seed"] % 7))
-        if os.path.lexists(name) or os.path.basename(holder) == "workspace" or ".signac" in holder.split("/"):
+        if (os.path.lexists(name) or os.path.basename(holder) == "workspace" or ".signac" in holder.split("/")
+                or ".signac" in target.split("/")):
             continue
         tgt = os.path.join(root, target)
         os.symlink(tgt if l["abs"] else os.path.relpath(tgt, os.path.dirname(name)), name)
+        assert os.path.realpath(name).startswith(root + os.sep), (name, os.readlink(name))
 
 
 # ------------------------------------------------------------------ observation helpers
